@@ -129,6 +129,11 @@ def catalogue(quick=True):
     for dz in ["WeightedAverage", "WeightedSum"]:
         for ag in ["none", "Maximum", "AlgebraicSum"]:
             cs.append(engine(f"ts-{dz}-{ag}", [in_a(), in_b()], [out_ts(defuzzifier=dz, aggregation=ag)], [block("rb", copy.deepcopy(ts_rules), implication="none")]))
+    # a missing (NaN) input under one operand of a connective whose other operand is 0 / 1: the value is NaN, not the absorbing element
+    cs.append(engine("nan-under-connectives", [in_a(), in_b()], [out_y()],
+                     [block("rb", [rule(OR(AND(P("b", "lo"), P("a", "lo")), P("b", "hi")), [C("y", "s")]),
+                                   rule(AND(OR(P("b", "hi"), P("a", "md")), P("b", "mid", "not")), [C("y", "m")]),
+                                   rule(OR(P("b", "hi"), AND(P("a", "lo"), P("b", "lo"))), [C("y", "l")])])]))
     # rule weights that are not 1 (or 0) but lie within the library's comparison tolerance of it
     near = copy.deepcopy(ts_rules)
     for r, w in zip(near, ["1023/1024", "2047/2048", "1/1024", "4095/4096", "1/2048"]):
